@@ -676,9 +676,8 @@ func logDescr(log tpm.CommandLog) []string {
 }
 
 type runner struct {
-	c         *gal.Ctx
-	knownSeen map[string]int
-	dims      map[string]map[string]bool // generated conditions: dimension -> values seen
+	c    *gal.Ctx
+	dims map[string]map[string]bool // generated conditions: dimension -> values seen
 }
 
 // dist counts one value of one dimension of the input distribution (evidence:
@@ -783,6 +782,7 @@ func (h *runner) scenario(sc scenario) {
 		}
 		// the repository's own consumer of the result, on the same log
 		var tool toolObs
+		fpTool := fpAfter
 		if o.kind == "some" {
 			applicable := true
 			for _, p := range o.disabled {
@@ -791,6 +791,7 @@ func (h *runner) scenario(sc scenario) {
 			if applicable {
 				tool = runTool(sc.log, sc.alg, target, o.res)
 				d["pcr0tool_says"] = tool.verdict
+				fpTool = fingerprint(sc.log)
 			}
 		}
 		lit := fmt.Sprintf("CRun %d %s %d %s %s %s %s", g, settingsLit(sc.st), sc.alg, cl, tterm, o.lit(), tool.lit())
@@ -828,7 +829,12 @@ func (h *runner) scenario(sc scenario) {
 		}
 		if fpAfter != fp {
 			c.OracleFail(idx, "the call modified the command log it was given (commands, digests or PCR0_DATA source bytes differ after the call)", site, d)
-			fp = fpAfter
+			fp = fpTool
+			continue
+		}
+		if fpTool != fp {
+			c.OracleFail(idx, "pcr0tool's printReproducePCR0Result modified the command log it was given (commands, digests or PCR0_DATA source bytes differ after the call): it has to work on its own copy of the entries", siteTool, d)
+			fp = fpTool
 			continue
 		}
 		switch o.kind {
@@ -1484,37 +1490,36 @@ func (h *runner) probes() {
 		runtime.GOMAXPROCS(prev)
 		c.Probe(findDropAll, o.kind == "nil", "log = [PCR0_DATA], MaxDisabledMeasurements=4, requested PCR0 = value after TPMInit(0): "+o.kind)
 	}
+}
 
-	// the consumer: boot log TPMInit(3), PCR0_DATA, three measurements (SHA256, as pcr0tool sum uses it)
-	alg = tpm2.AlgSHA256
-	toolProbe := func(p perturbation, maxReorders int) (observed, toolObs, bool) {
-		t := bootLog(reg, 3, false, [][]byte{{1}, {2}, {3}})
-		r := newRegistry()
-		ents := view(t.CommandLog, alg, r)
-		ds, _ := perturbed(alg, ents, p, r)
-		target := replayBytes(alg, p.loc, ds)
-		st := pcrbruteforcer.DefaultSettingsReproducePCR0()
-		st.MaxReorders = maxReorders
-		runtime.GOMAXPROCS(4)
-		o := run(t.CommandLog, alg, target, st, 20*time.Second)
-		runtime.GOMAXPROCS(prev)
-		if o.kind != "some" {
-			return o, toolObs{}, false
-		}
-		got, problem := applyAndReplay(t.CommandLog, alg, o.res)
-		return o, runTool(t.CommandLog, alg, target, o.res), problem == "" && bytes.Equal(got, target)
-	}
-	{
-		o, t, sound := toolProbe(perturbation{loc: 3, acm: acmChange{kind: "dec", dec: 1}}, 0)
-		c.Probe(findToolRegister, sound && t.verdict == "mismatch",
-			fmt.Sprintf("boot log TPMInit(3), PCR0_DATA, 3 measurements; requested PCR0 = the log with ACM_POLICY_STATUS - 1; default settings: result %v (sound: %v); pcr0tool: %s [%s]", o.descr(), sound, t.verdict, t.tail()))
-	}
-	{
-		o1, t1, s1 := toolProbe(perturbation{loc: 3, acm: acmChange{kind: "none"}, swaps: [][2]int{{1, 2}}}, 1)
-		o2, t2, s2 := toolProbe(perturbation{loc: 0, acm: acmChange{kind: "none"}, drop: []int{1}, swaps: [][2]int{{1, 2}}}, 1)
-		c.Probe(findToolSwaps, s1 && s2 && t1.verdict == "mismatch" && t2.verdict == "panic",
-			fmt.Sprintf("boot log TPMInit(3), PCR0_DATA, 3 measurements, MaxReorders=1; (a) measurements #1 and #2 swapped, locality 3: result %v (sound: %v); pcr0tool: %s [%s]; (b) measurement #1 dropped, the two behind it swapped, locality 0: result %v (sound: %v); pcr0tool: %s [%s]",
-				o1.descr(), s1, t1.verdict, t1.tail(), o2.descr(), s2, t2.verdict, t2.tail()))
+// The witnesses of the two repaired findings about pcr0tool's replay (/repo 00d338a, 84ad407),
+// as ordinary scenarios: boot log TPMInit(3), PCR0_DATA, three measurements, SHA256 as pcr0tool
+// sum uses it; (1) ACM_POLICY_STATUS - 1 with the default settings (the tool replayed the
+// recorded PCR0_DATA digest: "internal error"), (2) measurements #1 and #2 swapped, found at
+// locality 3 (TPMInit was element 0 of the swapped list: "internal error") and at locality 0,
+// (3) measurement #1 dropped and the two behind it swapped (index out of range), (4) PCR0_DATA
+// swapped with #1 at locality 3 (TPMInit moved behind an extend: no verdict).  The tool has to
+// confirm each result.
+func (h *runner) toolWitnesses() {
+	const reg = 0x0000000200108681
+	alg := tpm.Algorithm(tpm2.AlgSHA256)
+	t := bootLog(reg, 3, false, [][]byte{{1}, {2}, {3}})
+	def := pcrbruteforcer.DefaultSettingsReproducePCR0()
+	one := def
+	one.MaxReorders = 1
+	for _, w := range []struct {
+		st pcrbruteforcer.SettingsReproducePCR0
+		p  perturbation
+	}{
+		{def, perturbation{label: "in", loc: 3, acm: acmChange{kind: "dec", dec: 1}}},
+		{one, perturbation{label: "in", loc: 3, acm: acmChange{kind: "none"}, swaps: [][2]int{{1, 2}}}},
+		{one, perturbation{label: "in", loc: 0, acm: acmChange{kind: "none"}, swaps: [][2]int{{1, 2}}}},
+		{one, perturbation{label: "in", loc: 0, acm: acmChange{kind: "none"}, drop: []int{1}, swaps: [][2]int{{1, 2}}}},
+		{one, perturbation{label: "in", loc: 3, acm: acmChange{kind: "dec", dec: 1}, drop: []int{2}, swaps: [][2]int{{1, 2}}}},
+		{one, perturbation{label: "in", loc: 3, acm: acmChange{kind: "none"}, swaps: [][2]int{{0, 1}}}},
+	} {
+		h.scenario(scenario{kind: "e2e-tool-witness", log: t.CommandLog, alg: alg, st: w.st, pert: w.p, gs: []int{1, 4},
+			source: "boot simulation on fake_intel_firmware.fd (TPMInit(3), PCR0_DATA, 3 Measure steps); witness of a repaired pcr0tool finding"})
 	}
 }
 
@@ -2146,6 +2151,7 @@ func main() {
 	h.combWorkers(3)
 	h.linearLimitWitness()
 	h.manyWinners()
+	h.toolWitnesses()
 	h.probes()
 
 	// no generated condition may be constant
@@ -2165,6 +2171,6 @@ func main() {
 
 	c.Finish("e2e: command logs from boot simulations on fake_intel_firmware.fd (PCR0_DATA + 0..6 further measurements, appended TPMExtend, repeated digests, other-bank/other-PCR noise) and hand-made logs (no PCR0_DATA, PCR0_DATA not first / twice / inconsistent digest, aliasing digests); " +
 		"targets by known perturbations inside the search space (locality 0|3, dropped subset, decrement 0..limit-1 or bit flips, disjoint swaps) and just outside (decrement = limit and above, one more dropped/swapped than allowed, locality 1|2|4, 3-cycle, flips beyond the limit, everything dropped) and random bytes; both banks; random settings; each under GOMAXPROCS " + fmt.Sprint(gomaxprocs) +
-		"; e2e-slice-boundary: the dropped subset is the first/last combination of a goroutine's ID slice (k = 1..3 of 4..7 measurements, GOMAXPROCS 2,3,5,16); e2e-limit-2: MaxACMPolicyLinearDistance=2, register off by 2 and by 1 under GOMAXPROCS 1,2,3,4,5,16,64; e2e-many-winners: PCR0_DATA + 5..13 identical measurements, one dropped, decrement 3000 of 6000 (more succeeding goroutines than GOMAXPROCS+1); e2e-multi-swaps: every set of two disjoint swaps of 5 measurements and four sets of three swaps of 6, MaxReorders = number of swaps; e2e-comb-workers: MaxACMPolicyCombinatorialDistance=3 (41664 three-bit candidates, the first level that is split among 2..4 bruteforcer workers), register with 3 bits flipped chosen by combination ID (inside / first / last of a worker's slice) or 4 bits flipped (every worker scans its whole slice), GOMAXPROCS 2,3,4,5,16,64; linear-hook: per-goroutine offered registers for " + fmt.Sprint(len(limits)) + " limits x GOMAXPROCS; comb-hook: per-context summary of the registers combinatorialSearch.Process offers for distance limits 0..3 x GOMAXPROCS (limit 4 under GOMAXPROCS 16 through the oracle only), comb-hook-full: distance limits 0, 1, 2 (GOMAXPROCS 2, 3, 16) element by element; comb-hook-hit: accepted bit masks at and beyond the limit; e2e-drop-and-swap: every (one dropped measurement, one swap among the others) of five measurements and six cases with two dropped of six; e2e-maxdisabled-boundary: MaxDisabledMeasurements = n-1, n, n+1 for n = 2, 3 measurements with the largest searched subset and one more dropped; e2e-few-for-swaps: 1..3 measurements with MaxReorders 1..3; e2e-tool-shapes: logs with TPMInit first (locality of the answer / the other one), not first, twice, absent, and answers with a swap, a dropped measurement, a corrected register, both; every returned result is also handed, with the same log, to pcr0tool's printReproducePCR0Result (bound with go:linkname, stdout captured) and its verdict is compared with Model/PCR0Tool.v inside Coq and judged by the oracle (a sound result must be reproduced; the two known signatures are open findings); the command log is fingerprinted before and after every call (commands, digests, PCR0_DATA source bytes), and every result handed out by the calls made on one log (one call per GOMAXPROCS value) is read again after the last of them; input_distribution dist/<dimension>=<value> counts the generated conditions per run of ReproduceExpectedPCR0, a constant dimension is noted in the report; both hooks run with an instrumented init/check that notices a context that is inside check() on two goroutines at once. A case is non-trivial when the log has >= 2 PCR0 measurements and the target is not random bytes (linear-hook: limit > 1, comb-hook: limit > 0); distinct = distinct Gallina literal")
+		"; e2e-slice-boundary: the dropped subset is the first/last combination of a goroutine's ID slice (k = 1..3 of 4..7 measurements, GOMAXPROCS 2,3,5,16); e2e-limit-2: MaxACMPolicyLinearDistance=2, register off by 2 and by 1 under GOMAXPROCS 1,2,3,4,5,16,64; e2e-many-winners: PCR0_DATA + 5..13 identical measurements, one dropped, decrement 3000 of 6000 (more succeeding goroutines than GOMAXPROCS+1); e2e-multi-swaps: every set of two disjoint swaps of 5 measurements and four sets of three swaps of 6, MaxReorders = number of swaps; e2e-comb-workers: MaxACMPolicyCombinatorialDistance=3 (41664 three-bit candidates, the first level that is split among 2..4 bruteforcer workers), register with 3 bits flipped chosen by combination ID (inside / first / last of a worker's slice) or 4 bits flipped (every worker scans its whole slice), GOMAXPROCS 2,3,4,5,16,64; linear-hook: per-goroutine offered registers for " + fmt.Sprint(len(limits)) + " limits x GOMAXPROCS; comb-hook: per-context summary of the registers combinatorialSearch.Process offers for distance limits 0..3 x GOMAXPROCS (limit 4 under GOMAXPROCS 16 through the oracle only), comb-hook-full: distance limits 0, 1, 2 (GOMAXPROCS 2, 3, 16) element by element; comb-hook-hit: accepted bit masks at and beyond the limit; e2e-drop-and-swap: every (one dropped measurement, one swap among the others) of five measurements and six cases with two dropped of six; e2e-maxdisabled-boundary: MaxDisabledMeasurements = n-1, n, n+1 for n = 2, 3 measurements with the largest searched subset and one more dropped; e2e-few-for-swaps: 1..3 measurements with MaxReorders 1..3; e2e-tool-shapes: logs with TPMInit first (locality of the answer / the other one), not first, twice, absent, and answers with a swap, a dropped measurement, a corrected register, both; every returned result is also handed, with the same log, to pcr0tool's printReproducePCR0Result (bound with go:linkname, stdout captured) and its verdict is compared with Model/PCR0Tool.v inside Coq and judged by the oracle (a sound result must be reproduced by the tool; e2e-tool-witness: the witnesses of the two repaired findings /repo 00d338a, 84ad407); the command log is fingerprinted before and after every call and again after the tool has been handed it (commands, digests, PCR0_DATA source bytes), and every result handed out by the calls made on one log (one call per GOMAXPROCS value) is read again after the last of them; input_distribution dist/<dimension>=<value> counts the generated conditions per run of ReproduceExpectedPCR0, a constant dimension is noted in the report; both hooks run with an instrumented init/check that notices a context that is inside check() on two goroutines at once. A case is non-trivial when the log has >= 2 PCR0 measurements and the target is not random bytes (linear-hook: limit > 1, comb-hook: limit > 0); distinct = distinct Gallina literal")
 	_ = strings.Join
 }
